@@ -13,6 +13,15 @@ with every single command-line override that addresses a declared key of a secti
 (and of the top level), with override lists, through loader objects that serve two loads, through
 an ExtendedConfigLoader without options and through %include; the oracle is the reference entry list
 of the text edited as the override says (vz/ref/overrides.py).
+
+Wave 5 adds two axes.  WHERE AN ITEM IS DECLARED (DECLS below): the items under test are declared in a base
+type and reach the section of the text through `extends` (one or two derivation steps, with or without a key
+type of the derived type's own; for two items also split between base and derived type), and the leaf key of
+the implementers is inherited too (i2 extends i1).  WHAT THE LOADER OBJECT SERVED BEFORE (check_history): the
+text is loaded on a loader object - ConfigLoader, ExtendedConfigLoader with the first specifier - that has
+already served loads from an alphabet of prior texts: ancestors of the text, the text (or a prefix of it, its
+sections still open) followed by a line that makes the load fail late, the text preceded by %import of a
+schema component (accepted, and failing late).
 """
 import io
 import itertools
@@ -27,7 +36,58 @@ from vz.ref import overrides as OV
 from dataclasses import replace
 
 
+# axis "where an item is declared" (wave 5): name -> (how many of the items under test the base type 'cutb'
+# declares [None = all, 1 = the first], derivation steps between 'cutb' and 'cut', key type of 'cut' itself)
+DECLS = {
+    "own": None,
+    "base": (None, 1, None),
+    "base-two-steps": (None, 2, None),
+    "base+own-keytype": (None, 1, "identifier"),
+    "split": (1, 1, None),
+    "split+own-keytype": (1, 1, "identifier"),
+}
+DECLS_1 = ("base", "base-two-steps", "base+own-keytype")
+DECLS_2 = ("split", "base", "split+own-keytype")
+
+
+def is_keyish(it):
+    return isinstance(it, (M.Key, M.MultiKey))
+
+
 def family(tier):
+    return [m + ("own",) for m in family_own(tier)] + family_decl(tier)
+
+
+def family_decl(tier):
+    """the members whose items under test are inherited by the container under test"""
+    fam = []
+    sel1 = [x for x in M.selections(1) if x[1]]
+    for placement in (1, 2):
+        for lab, items in sel1:
+            sites = ["schema", "item0", "lk", "cuts"] + (["mids"] if placement == 2 else [])
+            for decl in DECLS_1:
+                if tier != "quick":
+                    subsets = [c for k in range(1, len(sites) + 1) for c in itertools.combinations(sites, k)]
+                elif placement == 1:
+                    subsets = [tuple(sites)] + ([("item0",)] if decl == "base" else [])
+                else:
+                    subsets = [tuple(sites)] if decl == "base" else []
+                for sub in subsets:
+                    fam.append((lab, items, placement, sub, 3, decl))
+    for lab, items in M.selections(2):
+        if len(items) != 2:
+            continue
+        # quick: the pairs of keys / multikeys (their containers hold no section slot: small state spaces)
+        if tier == "quick" and not (is_keyish(items[0]) and is_keyish(items[1])):
+            continue
+        for placement in ((1,) if tier == "quick" else (1, 2)):
+            sites = ["schema", "item0", "item1", "lk", "cuts"] + (["mids"] if placement == 2 else [])
+            for decl in (DECLS_2[:1] if tier == "quick" else DECLS_2):
+                fam.append((lab, items, placement, tuple(sites), 3, decl))
+    return fam
+
+
+def family_own(tier):
     fam = []
     sel1 = M.selections(1)
     sel2 = M.selections(2)
@@ -63,14 +123,38 @@ def hname(site):
 
 
 def build(member):
-    lab, items, placement, sub, depth = member
+    lab, items, placement, sub, depth = member[:5]
+    decl = member[5] if len(member) > 5 else "own"
     items = tuple(replace(it, handler=hname("item%d" % i)) if ("item%d" % i) in sub else it
                   for i, it in enumerate(items))
     env = M.type_env(lk_handler=hname("lk") if "lk" in sub else None, l1_datatype=M.SECT_DT_WRAP)
-    return M.place(items, placement, env, cut_datatype=M.SECT_DT_WRAP, schema_datatype=M.SECT_DT_WRAP,
-                   schema_handler=hname("schema") if "schema" in sub else None,
-                   cuts_handler=hname("cuts") if "cuts" in sub else None,
-                   mids_handler=hname("mids") if "mids" in sub else None)
+    if "lk" in sub:
+        # the leaf key of the implementers carries a handler too: sections of type i2 INHERIT it from i1
+        env = tuple(replace(t, items=tuple(replace(it, handler=hname("ik")) if it.name == "ik" else it
+                                           for it in t.items))
+                    if isinstance(t, M.SType) and t.name == "i1" else t for t in env)
+    kw = dict(cut_datatype=M.SECT_DT_WRAP, schema_datatype=M.SECT_DT_WRAP,
+              schema_handler=hname("schema") if "schema" in sub else None,
+              cuts_handler=hname("cuts") if "cuts" in sub else None,
+              mids_handler=hname("mids") if "mids" in sub else None)
+    if DECLS[decl] is None:
+        return M.place(items, placement, env, **kw)
+    assert placement >= 1, "only a section type can inherit"
+    nbase, steps, own_kt = DECLS[decl]
+    nbase = len(items) if nbase is None else nbase
+    chain = (M.SType("cutb", items[:nbase]),)
+    if steps == 2:
+        chain += (M.SType("cutm", (), extends="cutb"),)
+    return M.place(items[nbase:], placement, env + chain, cut_extends=chain[-1].name, cut_keytype=own_kt, **kw)
+
+
+def inherited_names(member):
+    """the (normalised) handler names of the items under test that the container under test inherits"""
+    d = DECLS[member[5]]
+    if d is None:
+        return []
+    nbase = len(member[1]) if d[0] is None else d[0]
+    return [hname("item%d" % i).lower() for i in range(nbase) if "item%d" % i in member[3]]
 
 
 def object_ids(v, out):
@@ -432,6 +516,67 @@ ROUTES = ("override", "override-list", "same-loader-two-loads",
 ROUTES_QUICK = ROUTES[:4]
 PART_URL = "file:///v/part.conf"
 
+# ---------------------------------------------------------------------------
+# axis "what the loader object served before" (wave 5).  The statement's entries are those of the items
+# "instantiated by the text" - THE text of the load that returned the handler; whatever the same loader object
+# was asked to load before (accepted or refused, with or without %import, which makes the loader switch to a
+# private copy of the schema for good) contributes nothing and takes nothing away.
+H_ROUTE = "loader-history"
+I_ROUTE = "loader-history-with-%import"
+LOADER_KINDS = ("ConfigLoader", "ExtendedConfigLoader+first-specifier")
+# lines that make every load fail whatever the schema says ('qq' is no type of any schema of the family),
+# raised from two different layers: the loader's startSection / the parser's section-end handling
+FAULT_LINES = (("unknown-section-type", "<qq/>"), ("stray-section-end", "</qq>"))
+IMPORT_PKG = "ZConfig.components.basic"      # ships with ZConfig; its component defines one section type
+IMPORT_TYPES = {IMPORT_PKG: (M.SType("zconfig.basic.mapping", (M.Key("+", attribute="mapping"),)),)}
+
+
+def prior_texts(hist, tier):
+    """the alphabet of texts a loader has served before it loads the text of the node `hist`:
+    (kind, text), accepted ones first, the failing ones after them.
+    ancestor-k  : the text without its last k events, sections closed (accepted or refused - by the schema at
+                  the end of a section or of the file, or because a specifier of the loader finds no section)
+    fault:<f>@k/closed : that text followed by the failing line f at the top level (everything before it was
+                  closed: each section's entries exist when the load fails)
+    fault:<f>@k/open   : the failing line inside the innermost section the prefix leaves open (nested sections
+                  closed earlier have delivered their entries, the open ones have not)
+    quick: k = 0 for the faults, k = 1 for the ancestor; thorough: k <= 1 for the faults, k <= 2 for the
+    ancestors."""
+    n = len(hist)
+    out = []
+    for k in ((1,) if tier == "quick" else (1, 2)):
+        if k <= n:
+            out.append(("ancestor-%d" % k, H.render_events(hist[:n - k])))
+    for k in ((0,) if tier == "quick" else (0, 1)):
+        if k > n:
+            continue
+        h = hist[:n - k]
+        closed = H.render_events(h)
+        opened = H.render_events(h, close=False)
+        for f, line in FAULT_LINES:
+            out.append(("fault:%s@%d/closed" % (f, k), closed + line + "\n"))
+            if opened != closed:
+                out.append(("fault:%s@%d/open" % (f, k), opened + line + "\n"))
+    return out
+
+
+def prior_class(kind):
+    """the prior's kind without its position"""
+    if kind.startswith("ancestor"):
+        return "ancestor"
+    return kind.split("@")[0] + "/" + kind.rsplit("/", 1)[1]
+
+
+def loader_of_kind(kind, sch, specs):
+    import ZConfig.cmdline
+    import ZConfig.loader
+    if kind == "ConfigLoader":
+        return ZConfig.loader.ConfigLoader(sch)
+    ld = ZConfig.cmdline.ExtendedConfigLoader(sch)
+    for sp in specs:
+        ld.addOption(sp)
+    return ld
+
 
 def ov_value(dt, second=False):
     if dt in ("string", "null"):
@@ -563,9 +708,10 @@ def check_delivery(cfg, handler, exp, bad):
     return rec.calls
 
 
-def check_routes(S, sch, hist, text, base_exp, acc, case, tier, wide=True):
+def check_routes(S, sch, hist, text, base_exp, acc, case, tier, wide=True, few=True):
     """the wave-3 axis on one accepted node (>= 1 entry) whose other variants all passed.
-    wide=False (quick tier, members with two items under test): single specifiers and the two-load session only."""
+    wide=False (quick tier, members with two items under test): single specifiers, the two-load session and the
+    loader history without %import only.  few: the member has <= 1 item under test."""
     specs = route_specs(S, hist, tier)
     # override lists: every single specifier; the first together with the last; thorough: every two neighbours
     lists = [((s[0],), "override", s[1], s[2]) for s in specs]
@@ -582,11 +728,11 @@ def check_routes(S, sch, hist, text, base_exp, acc, case, tier, wide=True):
             lists.append(((prim[i][0], prim[j][0]), "override-list", max(prim[i][1], prim[j][1]),
                           prim[i][2] + "+" + prim[j][2]))
 
-    def judge(obs, route, ovs, exp, **tags):
+    def judge(obs, route, ovs, exp, detail=None, **tags):
         """-> (cfg, handler, exp, bad) when the load was accepted as the reference says, None when there is
         nothing to compare, False after a violation"""
         acc.ev()
-        c = dict(case, route={"kind": route, "overrides": list(ovs)})
+        c = dict(case, route=dict({"kind": route, "overrides": list(ovs)}, **(detail or {})))
         tg = dict(tags, route=route)
 
         def bad(kind, observed, expected):
@@ -623,11 +769,15 @@ def check_routes(S, sch, hist, text, base_exp, acc, case, tier, wide=True):
             return None, ()
         return ref.entries, addressed
 
-    def session(ovs, route, first_text, **tags):
-        """one loader object serves two loads: first_text (None = the same text), then the text"""
+    def session(ovs, route, first_text, between=(), **tags):
+        """one loader object serves two loads: first_text (None = the same text), then the text; between the two
+        (wave 5, quick tier) the failing / shorter texts `between`"""
         ld = make_loader(sch, ovs)
         exp, addressed = expected(ovs)
         note(ovs, exp, addressed)
+        detail = {"between_the_two_loads": [k for k, _ in between]} if between else None
+        if between:
+            tags = dict(tags, prior="all-in-sequence")
         if first_text is None:
             j1 = judge(load_on(ld, text), route, ovs, exp, step=1, **tags)
             if not j1:
@@ -638,11 +788,21 @@ def check_routes(S, sch, hist, text, base_exp, acc, case, tier, wide=True):
         else:
             j1 = None
             load_on(ld, first_text)
-        j2 = judge(load_on(ld, text), route, ovs, exp, step=2, **tags)
+        late = 0
+        for kind, ptext in between:
+            o = serve(ld, kind, ptext, dict(case, route={"kind": route, "overrides": list(ovs)}),
+                      dict(tags, route=route))
+            if o is None:
+                return False
+            if o == "rejected" and kind.endswith("/closed"):
+                late += 1
+        j2 = judge(load_on(ld, text), route, ovs, exp, detail=detail, step=2, **tags)
         if not j2:
             return j2 is None
         if check_delivery(*j2) is None:
             return False
+        if between:
+            count_history(LOADER_KINDS[1], len(between), late)
         if j1 is not None:
             # the handler of the first load after the second load: unchanged
             h1, bad = j1[1], j1[3]
@@ -656,6 +816,27 @@ def check_routes(S, sch, hist, text, base_exp, acc, case, tier, wide=True):
                            [c[0] for c in calls1])
         acc.extra["loader-sessions"] += 1
         return True
+
+    # ---- wave 5: what the loader object served before
+    nested = len(base_exp) - sum(1 for it in S.items if it.handler) - (1 if S.handler else 0)
+    priors = prior_texts(tuple(hist), tier)
+
+    def serve(ld, kind, ptext, c, tg):
+        """one prior load; -> its outcome ('ok' / 'rejected'), or None after an internal error"""
+        o = load_on(ld, ptext)
+        if o[0] == "internal":
+            d = core.exc_desc(o[1])
+            acc.violation("internal-error", dict(c, prior=ptext), d, "a configuration or a configuration error",
+                          tags=dict(tg, kind="internal-error", exc=d["class"], where=d["where"]))
+            return None
+        acc.cls("history-prior:%s %s" % (prior_class(kind), o[0]))
+        return o[0]
+
+    def count_history(lkind, n_priors, late):
+        acc.extra["history-sessions/" + lkind] += 1
+        acc.extra["history-prior-loads"] += n_priors
+        if late and nested > 0:
+            acc.extra["history-sessions-after-a-load-that-failed-behind-closed-handler-sections"] += 1
 
     def note(ovs, exp, addressed):
         if exp is None:
@@ -673,7 +854,8 @@ def check_routes(S, sch, hist, text, base_exp, acc, case, tier, wide=True):
 
     # the first list (or no override at all) runs as a two-load session of one loader object
     first = lists[0] if lists else ((), "plain", 0, "none")
-    if not session(first[0], "same-loader-two-loads", None, components=first[2], by=first[3]):
+    if not session(first[0], "same-loader-two-loads", None,
+                   between=priors if tier == "quick" and first[0] else (), components=first[2], by=first[3]):
         return False
     for ovs, route, ncomp, how in lists[1:]:
         exp, addressed = expected(ovs)
@@ -699,9 +881,104 @@ def check_routes(S, sch, hist, text, base_exp, acc, case, tier, wide=True):
         other = H.render_events(tuple(hist)[:-1])
         if not session(first[0], ROUTES[4], other, components=first[2], by=first[3]):
             return False
+    def history(lkind, ovs, chosen, label):
+        """one loader object serves the priors `chosen`, in order, and then the text"""
+        exp, addressed = expected(ovs)
+        if exp is None:
+            acc.cls("route:%s unspecified-or-refused-by-the-reference" % H_ROUTE)
+            return True
+        ld = loader_of_kind(lkind, sch, ovs)
+        tg = {"route": H_ROUTE, "loader": lkind, "prior": label}
+        c = dict(case, route={"kind": H_ROUTE, "loader": lkind, "overrides": list(ovs),
+                              "priors": [k for k, _ in chosen]})
+        late = 0
+        for kind, ptext in chosen:
+            o = serve(ld, kind, ptext, c, tg)
+            if o is None:
+                return False
+            if o == "rejected" and kind.endswith("/closed"):
+                late += 1
+        j = judge(load_on(ld, text), H_ROUTE, ovs, exp, detail={"loader": lkind, "priors": [k for k, _ in chosen]},
+                  loader=lkind, prior=label)
+        if j is False or (j and check_delivery(*j) is None):
+            return False
+        if j:
+            count_history(lkind, len(chosen), late)
+        return True
+
+    # a ConfigLoader: all priors in sequence, then the text.  The ExtendedConfigLoader carrying the first
+    # specifier: quick - the priors were served between the two loads of the session above; thorough - its own
+    # session.  Thorough, members with <= 1 item under test: additionally one session per single prior of the
+    # nearest positions (ancestor-1, faults @0), for both kinds of loader.
+    for lkind in LOADER_KINDS:
+        ovs = first[0] if lkind != "ConfigLoader" else ()
+        if lkind != "ConfigLoader" and (tier == "quick" or not ovs):
+            continue
+        if not history(lkind, ovs, priors, "all-in-sequence"):
+            return False
+        if tier != "quick" and few:
+            for pr in priors:
+                if pr[0] == "ancestor-1" or "@0/" in pr[0]:
+                    if not history(lkind, ovs, [pr], prior_class(pr[0])):
+                        return False
+    if wide:
+        if not check_imports(S, sch, hist, text, base_exp, acc, case, tier, judge, serve, expected,
+                             first[0] if tier != "quick" and few else None, few):
+            return False
     acc.extra["route-nodes"] += 1
     if specs:
         acc.extra["route-nodes-with-overrides"] += 1
+    return True
+
+
+def check_imports(S, sch, hist, text, base_exp, acc, case, tier, judge, serve, expected, ext_specs, few):
+    """one loader object serves texts with and without '%import <package>' as their first line, in every order
+    of two: import -> plain, plain -> import, import -> import; and the plain text after an importing load that
+    failed late.  Every accepted load's handler is checked.  The package's component defines a section type the
+    text does not use: the reference (vz.ref.match.import_component) says the entries are those of the text."""
+    ihist = (("i", IMPORT_PKG),) + tuple(hist)
+    ref = R.decide(S, ihist, packages=IMPORT_TYPES)
+    if ref.verdict != "A":
+        raise core.HarnessError("the reference refuses an accepted text after %%import: %r" % (ihist,))
+    exp_i = ref.entries
+    itext = "%import " + IMPORT_PKG + "\n" + text
+    ifault = itext + FAULT_LINES[0][1] + "\n"
+    sessions = [("ConfigLoader", (), (("import", itext), ("plain", text), ("import", itext),
+                                      ("fault", ifault), ("plain", text)))]
+    if tier != "quick" and few:
+        sessions.append(("ConfigLoader", (), (("plain", text), ("import", itext), ("fault", ifault),
+                                              ("import", itext))))
+        if ext_specs:
+            sessions.append((LOADER_KINDS[1], ext_specs, sessions[0][2]))
+    for lkind, ovs, steps in sessions:
+        exp_plain, _ = expected(ovs)
+        if exp_plain is None:
+            continue
+        if ovs:
+            # the entries of the edited text: the import adds nothing to them
+            exp_imp = exp_plain
+        else:
+            exp_imp = exp_i
+        ld = loader_of_kind(lkind, sch, ovs)
+        before = "fresh-loader"
+        for n, (what, t) in enumerate(steps):
+            tg = {"route": I_ROUTE, "loader": lkind, "this_load": what, "load_before": before}
+            c = dict(case, route={"kind": I_ROUTE, "loader": lkind, "overrides": list(ovs),
+                                  "loads": [w for w, _ in steps[:n + 1]]})
+            if what == "fault":
+                if serve(ld, "fault:unknown-section-type-after-import@0/closed", t, c, tg) is None:
+                    return False
+            else:
+                j = judge(load_on(ld, t), I_ROUTE, ovs, exp_imp if what == "import" else exp_plain,
+                          detail={"loader": lkind, "loads": [w for w, _ in steps[:n + 1]]},
+                          loader=lkind, this_load=what, load_before=before)
+                if j is False or (j and check_delivery(*j) is None):
+                    return False
+                if j:
+                    acc.extra["import-history/%s-after-%s" % (what, before)] += 1
+                    if S.handler and before != "fresh-loader":
+                        acc.extra["import-history-loads-under-a-schema-handler-on-a-loader-that-imported"] += 1
+            before = what
     return True
 
 
@@ -730,9 +1007,12 @@ def check_case(S, sch, hist, text, acc, mid):
     exp = ref.entries
     names = [n for n, _ in exp]
     acc.cls("accepted-%d-entries" % min(len(exp), 6))
-    levels = set()
     if len(exp) >= 2:
         acc.nt()
+        acc.extra["decl-nodes-2+entries/" + mid.get("decl", "own")] += 1
+    inh = mid.get("inherited_names")
+    if inh and any(n in inh for n in names):
+        acc.extra["nodes-with-an-inherited-handler-entry"] += 1
     acc.sample(lambda: dict(case, entries=names))
 
     def bad(kind, observed, expected, **tags):
@@ -814,8 +1094,8 @@ def check_case(S, sch, hist, text, acc, mid):
     tier = mid.get("tier", TIER)
     if not check_callables(handler, [(c[0], c[1]) for c in first_calls], uniq, tier, bad, acc):
         return False
-    return check_routes(S, sch, hist, text, exp, acc, case, tier,
-                        wide=tier != "quick" or len(mid["label"]) <= 1)
+    few = len(mid["label"]) <= 1
+    return check_routes(S, sch, hist, text, exp, acc, case, tier, wide=tier != "quick" or few, few=few)
 
 
 def shard(member, acc):
@@ -823,7 +1103,8 @@ def shard(member, acc):
     xml = M.render(S)
     sch = H.load_schema(xml)
     mid = {"label": list(member[0]), "placement": member[2], "handlers_on": list(member[3]),
-           "depth": member[4], "schema": xml, "tier": TIER}
+           "depth": member[4], "schema": xml, "tier": TIER, "decl": member[5],
+           "inherited_names": inherited_names(member)}
     bfs.explore(S, sch, root, member[4], acc, lambda h, t: check_case(S, sch, h, t, acc, mid),
                 with_handlers=True)
     acc.extra["schemas"] += 1
@@ -872,6 +1153,33 @@ def run(tier):
              "Expected on every route: len, call sequence and delivered values (identical with the "
              "objects of the tree returned by THAT load) equal to the reference entry list of the text edited as the "
              "overrides say (vz/ref/overrides.py + vz/ref/match.py), all-or-nothing with the first name missing.  "
+             "Wave 5, axis WHERE AN ITEM IS DECLARED (bounds.declared_in): besides the members whose container under "
+             "test declares its items itself, members whose section type 'cut' INHERITS them: all items declared in a "
+             "base type 'cutb' that 'cut' extends directly (base), through an intermediate type (base-two-steps), or "
+             "directly while 'cut' names a key type of its own (base+own-keytype, identifier); for two items also the "
+             "first declared in 'cutb' and the second in 'cut' (split, split+own-keytype).  Every item kind of the menu "
+             "(keys, multikeys, all name='+' keys / multikeys with and without defaults, sections, multisections) is "
+             "inherited once; the reference entry list comes from the same model (base items first, in base order).  "
+             "In every member the handler site 'lk' now also puts a handler on the key of i1, which sections of "
+             "type i2 inherit.  Axis WHAT THE LOADER OBJECT SERVED BEFORE (routes loader-history, "
+             "loader-history-with-%import), on every accepted node with >= 1 entry: (n) one ConfigLoader object "
+             "serves every prior text of the alphabet bounds.prior_texts, in order, and then the text - priors: the "
+             "text without its last k events (an ancestor in the search; accepted, or refused at the end of a section "
+             "/ of the file), and the text without its last k events followed by a line no schema accepts, each of "
+             "bounds.fault_lines, once at the top level behind all closed sections (their entries exist when the load "
+             "fails) and once inside the innermost section the prefix leaves open; (o) the same priors on the "
+             "ExtendedConfigLoader carrying the node's first specifier (there an ancestor that lacks the addressed "
+             "section fails when the schema matcher finishes) - quick: served between the two loads of (j); thorough: "
+             "a session of its own, (j) staying two loads in a row; (p, thorough, members with <= 1 item under test) one "
+             "session per single prior of the nearest positions, both loader kinds; (q) one ConfigLoader serves, in "
+             "this order, '%import <package>' + text, the text, '%import' + text again, '%import' + text + a failing "
+             "last line, the text - every order of two of {importing, plain} plus plain after an importing load that "
+             "failed late; all four accepted loads judged (quick: members with <= 1 item under test; thorough: all, and "
+             "for <= 1 item also the order plain, import, failing import, import and the session (q) on the "
+             "ExtendedConfigLoader with the first specifier).  The imported component (ZConfig.components.basic) "
+             "defines one section type no text uses; the reference (vz.ref.match.import_component) gives the entries.  "
+             "Expected after every history: exactly the reference entries of THE TEXT OF THAT LOAD (len, sequence, "
+             "values, identity with that load's tree, all-or-nothing).  "
              "Non-trivial = accepted (text, route) with >= 2 handler entries.",
         bounds={"schemas": len(fam), "depth": sorted(set(m[4] for m in fam)),
                 "callable_kinds": list(KIND_NAMES), "shared_kinds": list(SHARED_KINDS),
@@ -888,14 +1196,36 @@ def run(tier):
                                  "one convertible value ('ov', '9')",
                 "override_lists": "singles; first+last" + (" (schemas with <= 1 item under test)" if tier == "quick"
                                                            else "; neighbours"),
-                "include_route": "schemas with <= 1 item under test" if tier == "quick" else "all schemas"},
+                "include_route": "schemas with <= 1 item under test" if tier == "quick" else "all schemas",
+                "declared_in": {d: sum(1 for m in fam if m[5] == d) for d in DECLS},
+                "declared_in_bounds": (
+                    "quick: 1 item x {base: placements 1, 2, all sites on + placement 1 item alone; base-two-steps, "
+                    "base+own-keytype: placement 1, all sites on}; 2 items, both keys / multikeys: split, placement 1, "
+                    "all sites on" if tier == "quick" else
+                    "1 item x {base, base-two-steps, base+own-keytype} x placements 1, 2 x every subset of sites; "
+                    "every 2 items x {split, base, split+own-keytype} x placements 1, 2, all sites on"),
+                "loader_kinds": list(LOADER_KINDS),
+                "fault_lines": [l for _, l in FAULT_LINES],
+                "prior_texts": ("ancestor k=1; each fault line behind the whole text: sections closed / innermost "
+                                "sections open; all served in sequence before the text" if tier == "quick" else
+                                "ancestors k=1, 2; each fault line behind the text without its last k=0, 1 events: "
+                                "sections closed / open; all in sequence, and (<= 1 item) each k=0 / ancestor-1 prior alone"),
+                "import_sessions": ("import, plain, import, failing import, plain on a ConfigLoader (schemas with <= 1 "
+                                    "item under test)" if tier == "quick" else
+                                    "import, plain, import, failing import, plain on a ConfigLoader (all schemas); plain, "
+                                    "import, failing import, import and the first on an ExtendedConfigLoader with the "
+                                    "first specifier (<= 1 item)"),
+                "import_package": IMPORT_PKG},
         assumptions=["reference entry order from vz/ref/match.py (finish order of containers)",
                      "map keys that are not valid basic-keys are not generated (statement silent)",
                      "mapped objects that are neither None nor callable, and callables that raise, are not "
                      "generated (statement silent)",
                      "what an override does to the VALUES is C14's subject: routes whose verdict differs from the "
                      "reference on the edited text are counted (route_verdict_disagreements), not judged here",
-                     "loadConfig(url) / loadURL differ from loadFile only in how the resource is opened (not a route)"])
+                     "loadConfig(url) / loadURL differ from loadFile only in how the resource is opened (not a route)",
+                     "whether a prior text is accepted or refused is not judged (C01's subject); only internal errors "
+                     "of a prior load are reported",
+                     "the package imported by the history texts defines one section type the texts never use"])
     core.pmap(shard, fam, run.acc, shard_budget=1800.0)
     a = run.acc
     run.require(sum(v for k, v in a.classes.items() if k.startswith("accepted-") and k != "accepted-0-entries"
@@ -918,6 +1248,34 @@ def run(tier):
     run.require(a.extra.get("override-loads-with-schema-handler", 0) > 50000,
                 "too few override loads under a schema-level handler")
     run.require(a.extra.get("loader-sessions", 0) > 50000, "too few two-load sessions of one loader object")
+    # wave 5
+    own2 = a.extra.get("decl-nodes-2+entries/own", 0)
+    for d in DECLS:
+        if d != "own" and any(m[5] == d for m in fam):
+            run.require(a.extra.get("decl-nodes-2+entries/" + d, 0) > (1000 if tier == "quick" else 5000),
+                        "too few accepted nodes with >= 2 entries whose items are declared as '%s'" % d)
+    run.require(own2 > 100000, "too few accepted nodes with >= 2 entries in the members that declare their own items")
+    run.require(a.extra.get("nodes-with-an-inherited-handler-entry", 0) > 10000,
+                "too few accepted nodes whose entry list holds the entry of an inherited item")
+    run.require(a.extra.get("route/" + H_ROUTE, 0) > 100000, "route %s accepted on too few nodes" % H_ROUTE)
+    run.require(a.extra.get("route/" + I_ROUTE, 0) > 100000, "route %s accepted on too few loads" % I_ROUTE)
+    for lk in LOADER_KINDS:
+        run.require(a.extra.get("history-sessions/" + lk, 0) > 100000,
+                    "too few loader-history sessions on a %s" % lk)
+    run.require(a.extra.get("history-sessions-after-a-load-that-failed-behind-closed-handler-sections", 0) > 100000,
+                "too few history sessions whose loader had refused a text after sections with handler entries were closed")
+    run.require(a.classes.get("history-prior:ancestor rejected", 0) > 5000,
+                "too few prior loads refused for a reason of the schema's / the specifier's own")
+    for f, _ in FAULT_LINES:
+        for pos in ("closed", "open"):
+            run.require(a.classes.get("history-prior:fault:%s/%s rejected" % (f, pos), 0) > 100000,
+                        "fault line %s / %s served too rarely" % (f, pos))
+            run.require(a.classes.get("history-prior:fault:%s/%s ok" % (f, pos), 0) == 0,
+                        "a text ending in the failing line %s was accepted: the line does not do its job" % f)
+    for k in ("import-after-fresh-loader", "plain-after-import", "import-after-plain", "plain-after-fault"):
+        run.require(a.extra.get("import-history/" + k, 0) > 20000, "too few loads '%s'" % k)
+    run.require(a.extra.get("import-history-loads-under-a-schema-handler-on-a-loader-that-imported", 0) > 20000,
+                "too few loads under a schema-level handler on a loader that had imported a component")
     run.require(a.extra.get("route_verdict_disagreements", 0) * 100 <= a.extra.get("route/override", 0),
                 "more than 1% of the override loads disagree with the reference on the verdict")
     return run
@@ -926,7 +1284,8 @@ def run(tier):
 def replay(body):
     case = body["case"]
     m = case["member"]
-    member = (tuple(m["label"]), M.items_from_labels(m["label"]), m["placement"], tuple(m["handlers_on"]), m["depth"])
+    member = (tuple(m["label"]), M.items_from_labels(m["label"]), m["placement"], tuple(m["handlers_on"]), m["depth"],
+              m.get("decl", "own"))
     S, root = build(member)
     assert M.render(S) == m["schema"], "schema of the replay file cannot be rebuilt"
     hist = tuple(tuple(e) for e in case["events"])
